@@ -24,6 +24,7 @@ type Obl struct {
 	Prefix int
 	PC     Term
 	Goal   Term
+	Parts  []Term // conjuncts of the goal, each decided by its own query
 	Cover  bool // expected sat
 	NLits  int
 	Pos    token.Pos
@@ -84,13 +85,14 @@ type FnEnc struct {
 	implicitInv []Clause
 	cellClos map[*ssa.Alloc]*ClosInfo
 	curCallRecv ssa.Value
+	compT    map[string]types.Type
 	litOrder []string
 }
 
 func (c *Ctx) newFnEnc(fn *ssa.Function, dry bool) *FnEnc {
 	fe := &FnEnc{c: c, fn: fn, key: c.keyOf(fn), dry: dry, declared: map[string]bool{}, regs: map[ssa.Value]RV{}, oblCount: map[string]int{},
 		lits: map[string]string{}, loopOf: map[*ssa.BasicBlock]*Loop{}, fnWrites: newWriteSet(), epochPar: map[int][]epochParent{}, compSort: map[string]string{},
-		params: map[string]RV{}, havocs: map[string]bool{}, assumed: map[string]bool{}, sweep: true, deferArgs: map[*ssa.Defer][]RV{}, callOrd: map[string]int{}, cellClos: map[*ssa.Alloc]*ClosInfo{}}
+		params: map[string]RV{}, havocs: map[string]bool{}, assumed: map[string]bool{}, sweep: true, deferArgs: map[*ssa.Defer][]RV{}, callOrd: map[string]int{}, cellClos: map[*ssa.Alloc]*ClosInfo{}, compT: map[string]types.Type{}}
 	fe.sorts = newSorts(func(s string) { fe.lines = append(fe.lines, s) })
 	if p := c.pkgOf(fn); p != nil {
 		fe.pkgPath = p.Pkg.Path()
@@ -229,7 +231,37 @@ func (fe *FnEnc) compInit(name, sort string, epoch int) Term {
 		pt := fe.compInit(name, sort, p.epoch)
 		fe.emit("(assert " + tImp(p.cond, tEq(t, pt)).S + ")")
 	}
+	if name != "alloc" && len(fe.epochPar[epoch]) == 0 {
+		fe.emitHeapWF(name, t, fe.compInit("alloc", sInt, epoch))
+	}
 	return t
+}
+
+// emitHeapWF: every reference stored in a heap component was allocated before (language invariant,
+// assumed for initial and havocked versions of a component).
+func (fe *FnEnc) emitHeapWF(name string, h Term, alloc Term) {
+	if fe.dry {
+		return
+	}
+	T, ok := fe.compT[name]
+	if !ok {
+		return
+	}
+	switch {
+	case strings.HasPrefix(name, "E.") || strings.HasPrefix(name, "MV."):
+		idx := arrIdxSort(arrElemSort(h.Sort))
+		v := Term{"(select (select " + h.S + " r) p)", arrElemSort(arrElemSort(h.Sort))}
+		f := fe.wf(T, v, alloc, 0)
+		if f.S != "true" {
+			fe.emit(fmt.Sprintf("(assert (forall ((r Int) (p %s)) (! %s :pattern (%s))))", idx, f.S, v.S))
+		}
+	case strings.HasPrefix(name, "H.") || strings.HasPrefix(name, "C.") || strings.HasPrefix(name, "box."):
+		v := Term{"(select " + h.S + " r)", arrElemSort(h.Sort)}
+		f := fe.wf(T, v, alloc, 0)
+		if f.S != "true" {
+			fe.emit(fmt.Sprintf("(assert (forall ((r Int)) (! %s :pattern (%s))))", f.S, v.S))
+		}
+	}
 }
 
 func (fe *FnEnc) getComp(st *State, name, sort string) Term {
@@ -247,6 +279,14 @@ func (fe *FnEnc) oldComp(name, sort string) Term {
 
 func (fe *FnEnc) recordCompWrite(name, sort string) {
 	fe.fnWrites.comps[name] = sort
+	if t, ok := fe.compT[name]; ok {
+		fe.fnWrites.types[name] = t
+		for _, l := range fe.loops {
+			if fe.curBlock != nil && l.blocks[fe.curBlock] {
+				l.writes.types[name] = t
+			}
+		}
+	}
 	for _, l := range fe.loops {
 		if fe.curBlock != nil && l.blocks[fe.curBlock] {
 			l.writes.comps[name] = sort
@@ -283,6 +323,8 @@ func (fe *FnEnc) havocComp(st *State, name, sort string) {
 	st.heap[name] = Term{cn, sort}
 	if name == "alloc" {
 		fe.emit("(assert (>= " + cn + " " + old.S + "))")
+	} else {
+		fe.emitHeapWF(name, Term{cn, sort}, fe.alloc(st))
 	}
 }
 
@@ -361,8 +403,10 @@ func (fe *FnEnc) fieldLoc(st types.Type, i int, base Term) (string, string, Term
 	s := structOf(st)
 	fs := fe.sorts.sortOf(s.Field(i).Type())
 	if fe.c.escFields[escKey(st, i)] {
+		fe.compT[compCell(fs)] = s.Field(i).Type()
 		return compCell(fs), arrSort(sInt, fs), fe.subAddr(st, i, base)
 	}
+	fe.compT[compField(st, i)] = s.Field(i).Type()
 	return compField(st, i), arrSort(sInt, fs), base
 }
 
@@ -473,16 +517,16 @@ func (fe *FnEnc) load(st *State, a *Addr) Term {
 		return fe.project(v, a.path)
 	case aElem:
 		es := fe.sorts.sortOf(a.T)
+		fe.compT[compElems(es)] = a.T
 		h := fe.getComp(st, compElems(es), arrSort(sInt, arrSort(sInt, es)))
 		return fe.project(tSel(tSel(h, a.base), a.pos), a.path)
 	case aCell:
 		cs := fe.sorts.sortOf(a.T)
+		fe.compT[compCell(cs)] = a.T
 		h := fe.getComp(st, compCell(cs), arrSort(sInt, cs))
 		return fe.project(tSel(h, a.base), a.path)
 	case aGlobal:
-		gs := fe.sorts.sortOf(a.T)
-		h := fe.getComp(st, "G."+a.glob.Pkg.Pkg.Name()+"."+a.glob.Name(), gs)
-		return fe.project(h, a.path)
+		return fe.project(fe.globalVal(st, a.glob.Pkg.Pkg.Name(), a.glob.Name(), a.T), a.path)
 	}
 	panic("load: bad addr")
 }
@@ -502,15 +546,24 @@ func (fe *FnEnc) store(st *State, a *Addr, v Term) {
 	case aElem:
 		es := fe.sorts.sortOf(a.T)
 		cn, cs := compElems(es), arrSort(sInt, arrSort(sInt, es))
+		fe.compT[cn] = a.T
 		h := fe.getComp(st, cn, cs)
 		row := tSel(h, a.base)
 		if len(a.path) > 0 {
 			v = fe.update(tSel(row, a.pos), a.path, v)
 		}
 		fe.setComp(st, cn, cs, tStore(h, a.base, tStore(row, a.pos, v)))
+		if !fe.dry {
+			// forward propagation: elements known in the old heap are known in the new one (witnesses for existential goals)
+			h2 := fe.getComp(st, cn, cs)
+			pos := fe.define("st.pos", a.pos)
+			fe.emit(fmt.Sprintf("(assert (forall ((p Int)) (! (=> (not (= p %s)) (= (select (select %s %s) p) (select (select %s %s) p))) :pattern ((select (select %s %s) p)))))",
+				pos.S, h2.S, a.base.S, h.S, a.base.S, h.S, a.base.S))
+		}
 	case aCell:
 		cs := fe.sorts.sortOf(a.T)
 		cn, srt := compCell(cs), arrSort(sInt, cs)
+		fe.compT[cn] = a.T
 		h := fe.getComp(st, cn, srt)
 		if len(a.path) > 0 {
 			v = fe.update(tSel(h, a.base), a.path, v)
@@ -526,6 +579,36 @@ func (fe *FnEnc) store(st *State, a *Addr, v Term) {
 	default:
 		panic("store: bad addr")
 	}
+}
+
+// globalVal: package-level variables never assigned outside initialisers are constants.
+func (fe *FnEnc) globalVal(st *State, pkg, name string, t types.Type) Term {
+	gs := fe.sorts.sortOf(t)
+	if !fe.c.mutGlobals[pkg+"."+name] {
+		n := q("G." + pkg + "." + name)
+		if !fe.declared[n] {
+			fe.declared[n] = true
+			fe.emit("(declare-const " + n + " " + gs + ")")
+			if _, ok := t.Underlying().(*types.Pointer); ok {
+				fe.emit("(assert (not (= " + n + " 0)))") // initialised by MustCompile / constructors
+			}
+		}
+		return Term{n, gs}
+	}
+	return fe.getComp(st, "G."+pkg+"."+name, gs)
+}
+
+// elemAt is the element k of slice s in element heap h, as a function application so that
+// quantified specifications and the code's own accesses share one trigger shape.
+func (fe *FnEnc) elemAt(h, s, k Term) Term {
+	es := arrElemSort(arrElemSort(h.Sort))
+	fn := q("at." + stripQ(es))
+	if !fe.declared[fn] {
+		fe.declared[fn] = true
+		fe.emit(fmt.Sprintf("(declare-fun %s (%s Slice Int) %s)", fn, h.Sort, es))
+		fe.emit(fmt.Sprintf("(assert (forall ((h %s) (s Slice) (k Int)) (! (= (%s h s k) (select (select h (s_arr s)) (+ (s_off s) k))) :pattern ((%s h s k)))))", h.Sort, fn, fn))
+	}
+	return Term{app(fn, h, s, k), es}
 }
 
 // addrOf turns a pointer-typed RV into an address.
@@ -680,6 +763,73 @@ func (fe *FnEnc) pkgShort() string {
 		return "olareg"
 	}
 	return d
+}
+
+// splitGoal breaks a specification into conjuncts (through predicates, implications and universal quantifiers).
+func (fe *FnEnc) splitGoal(ex Expr, env *Env, depth int) []Expr {
+	if depth > 12 {
+		return []Expr{ex}
+	}
+	switch x := ex.(type) {
+	case EBin:
+		switch x.Op {
+		case "&&":
+			return append(fe.splitGoal(x.L, env, depth+1), fe.splitGoal(x.R, env, depth+1)...)
+		case "==>":
+			rs := fe.splitGoal(x.R, env, depth+1)
+			if len(rs) <= 1 {
+				return []Expr{ex}
+			}
+			out := make([]Expr, len(rs))
+			for i, r := range rs {
+				out[i] = EBin{"==>", x.L, r}
+			}
+			return out
+		}
+	case EQuant:
+		if x.Forall {
+			bs := fe.splitGoal(x.Body, env, depth+1)
+			if len(bs) <= 1 {
+				return []Expr{ex}
+			}
+			out := make([]Expr, len(bs))
+			for i, b := range bs {
+				out[i] = EQuant{true, x.Vars, b, nil}
+			}
+			return out
+		}
+	case ECall:
+		if p := fe.findPred(env, x.Fn); p != nil && len(p.Params) == len(x.Args) {
+			m := map[string]Expr{}
+			for i, pn := range p.Params {
+				m[pn] = x.Args[i]
+			}
+			return fe.splitGoal(substExpr(p.Body, m), env, depth+1)
+		}
+	}
+	return []Expr{ex}
+}
+
+// addOblExpr adds an obligation for a specification expression; its conjuncts are decided separately.
+func (fe *FnEnc) addOblExpr(st *State, kind, label string, props []string, ex Expr, env *Env, pos token.Pos) *Obl {
+	if fe.dry {
+		return nil
+	}
+	parts := fe.splitGoal(ex, env, 0)
+	if len(parts) > 40 {
+		parts = []Expr{ex}
+	}
+	var ts []Term
+	for _, p := range parts {
+		ts = append(ts, fe.trBool(p, env))
+	}
+	o := fe.addObl(st, kind, label, props, tAnd(ts...), pos)
+	if len(ts) > 1 {
+		o.Parts = ts
+		o.Prefix = len(fe.lines)
+		o.NLits = len(fe.litOrder)
+	}
+	return o
 }
 
 // safety obligation; always tagged with C15 plus the function's own properties
